@@ -17,6 +17,6 @@ s = open(f).read()
 assert old in s, "text not found: " + old
 open(f, 'w').write(s.replace(old, new, 1))
 EOF
-git diff > "$HERE/selftest/mutants/$1.patch"
+git add -N . >/dev/null 2>&1; git diff > "$HERE/selftest/mutants/$1.patch"
 cd /; rm -rf "$SCR"
 echo "wrote mutants/$1.patch"
